@@ -112,12 +112,20 @@ func (c *Ctx) finish() {
 		return
 	}
 	shardSize := 400
-	nshards := (len(c.cases) + shardSize - 1) / shardSize
-	for s := 0; s < nshards; s++ {
-		lo, hi := s*shardSize, (s+1)*shardSize
-		if hi > len(c.cases) {
-			hi = len(c.cases)
+	// shards of at most shardSize cases and about 8 MB of source (Coq's parser overflows its stack on very large files)
+	var bounds [][2]int
+	for lo := 0; lo < len(c.cases); {
+		hi, bytes := lo, 0
+		for hi < len(c.cases) && hi-lo < shardSize && (hi == lo || bytes+len(c.cases[hi]) <= 8<<20) {
+			bytes += len(c.cases[hi])
+			hi++
 		}
+		bounds = append(bounds, [2]int{lo, hi})
+		lo = hi
+	}
+	nshards := len(bounds)
+	for s := 0; s < nshards; s++ {
+		lo, hi := bounds[s][0], bounds[s][1]
 		var b strings.Builder
 		b.WriteString(c.header)
 		fmt.Fprintf(&b, "Definition cases : list %s := [\n", c.casetype)
